@@ -5,9 +5,6 @@ import TorchDataVerif.Proofs.MPRIInv
 namespace TDV.MPRI
 open TDV.MP TDV.MPU
 
-/-- No fetch of any shard raises. -/
-def ShardsOk (c : Cfg) : Prop := ∀ (w j : Nat), (c.shards.getD w [])[j]? ≠ some Item.err
-
 /-- Everything about an active state, ghosts exposed. -/
 structure JX (c : Cfg) (e0 : Nat → Bool) (δ : Nat) (s : State) (g : Ghost) (dl : List Nat) : Prop where
   wi : WI c s g
